@@ -534,8 +534,8 @@ ASSUMPTIONS = [
 ]
 NOT_COVERED = {
     "C13": ["collections of more than two variants (induction over the composition lemma)",
-            "incorporate_variants on GeneInterval / collections (loops over the children: covered through the per-child "
-            "contracts only)",
+            "incorporate_variants on FeatureIntervalCollection / AnnotationCollection (loops over the children: covered "
+            "through the per-child contracts and the two-isoform GeneInterval case only)",
             "marshmallow field validation inside Schema().load (third-party; modelled as 'records its argument')"],
     "C18": ["GenBank features grouped by locus tag under permutation of records (io/genbank/parser.py does not import "
             "here; Biopython feature objects)"],
@@ -543,11 +543,13 @@ NOT_COVERED = {
             "(block-list rebuild followed by constructor re-sort / optimize_blocks): proved for 1..3 blocks with symbolic "
             "coordinates, no contract for an arbitrary number of blocks",
             "overlapping-block layouts for the interval forms (bounded tier only)"],
-    "C02": ["CompoundInterval.intersection / union / minus / has_overlap / contains / gap_list with compound operands: "
+    "C02": ["CompoundInterval.intersection / union / minus / has_overlap / contains with compound operands: "
             "proved for fixed block counts (1..3 x 1..2) with symbolic coordinates, no contract for arbitrary block counts",
-            "CompoundInterval.extend_absolute / extend_relative (bounded tier only)",
+            "gap_list / gaps_location / extend_absolute / extend_relative / shift_position / reverse / merge_overlapping: "
+            "proved for 2 (quick) and 3 (thorough) blocks that may overlap or nest, no contract for arbitrary block counts",
             "random pairs over large genomes (replaced by the unbounded single-interval proofs)"],
-    "C03": ["Sequence.reverse_complement / append of located sequences symbolically (bounded tier only)"],
+    "C03": ["Sequence.reverse_complement / append of sequences located on COMPOUND intervals symbolically (single-interval "
+            "locations are proved on symbolic text; compound ones are in the bounded tier)"],
     "C08": ["marshmallow schema load/dump through JSON (io/models.py not importable)"],
     "C11": ["parse-back leg (io/gff3/parser.py: gffutils objects), FASTA section"],
     "C12": ["not claimed"],
